@@ -377,24 +377,27 @@ type Monitor struct {
 	done   chan struct{}
 	mu     sync.Mutex
 	maxGap time.Duration
+	last   time.Time
 }
 
 // StartMonitor starts a starvation monitor.
 func StartMonitor() *Monitor {
-	m := &Monitor{stop: make(chan struct{}), done: make(chan struct{})}
+	m := &Monitor{stop: make(chan struct{}), done: make(chan struct{}), last: time.Now()}
 	go func() {
 		defer close(m.done)
-		last := time.Now()
 		tk := time.NewTicker(2 * time.Millisecond)
 		defer tk.Stop()
 		for {
 			select {
 			case <-m.stop:
 				return
-			case now := <-tk.C:
-				gap := now.Sub(last)
-				last = now
+			case <-tk.C:
+				// the tick's own time stamp may predate a stall (a tick
+				// that sat in the channel); the clock does not
+				now := time.Now()
 				m.mu.Lock()
+				gap := now.Sub(m.last)
+				m.last = now
 				if gap > m.maxGap {
 					m.maxGap = gap
 				}
@@ -405,11 +408,16 @@ func StartMonitor() *Monitor {
 	return m
 }
 
-// MaxGap returns and resets the largest gap seen.
+// MaxGap returns and resets the largest gap seen. The gap that is still open
+// counts: a caller whose deadline passed during a stall of the whole process
+// usually runs before the monitor goroutine does, and must see that stall.
 func (m *Monitor) MaxGap() time.Duration {
 	m.mu.Lock()
 	defer m.mu.Unlock()
 	g := m.maxGap
+	if open := time.Since(m.last); open > g {
+		g = open
+	}
 	m.maxGap = 0
 	return g
 }
